@@ -65,8 +65,11 @@ class _RangeExprHandler:
         return self._sdv.references
 
     def resolve(self, symbols: SymbolTable):
-        if self.range_expr_str is None:
-            self.range_expr_str = self._sdv.resolve(symbols).value_when_no_dir_dependencies()
+        range_expr_str = self._sdv.resolve(symbols).value_when_no_dir_dependencies()
+        if range_expr_str != self.range_expr_str:
+            # First resolving, or resolving with other symbol values
+            # (the object is used by every test case of a suite, if it is part of the suite).
+            self.range_expr_str = range_expr_str
             self.validator = _RangeValidator(self.range_expr_str)
 
 
